@@ -79,7 +79,7 @@ class World(object):
                 start_response("404 Not Found", [("Content-Type", "text/plain"), ("Content-Length", str(len(body)))])
                 return [body]
             if ent["kind"] == "redirect":
-                body = b"moved"
+                body = b"moved: hop %d" % ent["hop"]
                 start_response("%d %s" % (ent["status"], REASON[ent["status"]]),
                                [("Location", ent["location"]), ("Content-Type", "text/plain"),
                                 ("Content-Length", str(len(body))), ("X-Hop", str(ent["hop"]))])
@@ -334,6 +334,10 @@ def one_case(ctx, world, rng, idx, deadline):
             exp = [(h["status"], h["location"]) for h in hops]
             ctx.check(got == exp, "redirect/chain-carried-in-order", "final response does not carry the redirect responses in order",
                       lambda: w2({"carried": got, "expected": exp}))
+            gotb = [bytes(r["body"]) for r in reds]
+            ctx.check(got != exp or gotb == [b"moved: hop %d" % k for k in range(len(hops))], "redirect/chain-response-bodies",
+                      "the redirect responses carried by the final response do not have the bodies the servers sent",
+                      lambda: w2({"carried_bodies": [b.decode("latin-1") for b in gotb]}))
             ctx.hit("completed_chains")
             ctx.hit("chain_len:%d" % len(hops))
             # the same Patron is used again: a second request walks the same chain (only when the chain ends on the
